@@ -239,19 +239,21 @@ def transpile_structure(
             + indent_str("    ctx.context_values.pop()", indent)
         )
     if isinstance(struct, vyxal.structure.WhileLoop):
+        # The condition is evaluated at the top of every iteration so that
+        # `continue` (x) re-evaluates it like any other way of reaching the
+        # next iteration does.
         return (
-            transpile_ast(struct.condition, indent, dict_compress=dict_compress)
-            + indent_str("condition = pop(stack, 1, ctx=ctx)", indent)
-            + indent_str("while boolify(condition, ctx):", indent)
+            indent_str("while True:", indent)
+            + transpile_ast(
+                struct.condition, indent + 1, dict_compress=dict_compress
+            )
+            + indent_str("    condition = pop(stack, 1, ctx=ctx)", indent)
+            + indent_str("    if not boolify(condition, ctx): break", indent)
             + indent_str("    ctx.context_values.append(condition)", indent)
             + transpile_ast(
                 struct.body, indent + 1, dict_compress=dict_compress
             )
             + indent_str("    ctx.context_values.pop()", indent)
-            + transpile_ast(
-                struct.condition, indent + 1, dict_compress=dict_compress
-            )
-            + indent_str("    condition = pop(stack, 1, ctx=ctx)", indent)
         )
     if isinstance(struct, vyxal.structure.FunctionCall):
         var = re.sub("[^A-Za-z0-9_]", "", struct.name)
